@@ -542,12 +542,15 @@ def runGlue (f : List String) (impl : String) : String :=
     match consistencyTok sc, serialOptTok ss, profTok sp, i64Tok genr, idTok dn, idTok dv, idTok an, idTok av, idTok ci,
           cfgToks [c, ser, ts, tr], i32Tok ps, pages.toNat?, boolTok uc, (ids.splitOn ",").mapM bytesTok with
     | some sc, some ss, some sp, some genr, some dn, some dv, some an, some av, some ci, some cfg, some (some ps),
-      some pages, some uc, some [id1, id2] =>
-      let plain := ["query_unpaged", "query_page", "query_iter", "queryv_unpaged", "queryv_page", "queryv_iter"]
-      let exec := ["execute_unpaged", "execute_page", "execute_iter"]
+      some pages, some uc, some [id1, id2, idA, idB] =>
+      let plain := ["query_unpaged", "query_page", "query_iter", "query_pages", "queryv_unpaged", "queryv_page", "queryv_iter",
+        "queryv_pages"]
+      let exec := ["execute_unpaged", "execute_page", "execute_iter", "execute_pages"]
       let okShape := (plain.contains op && via == "-" && !uc) ||
         (exec.contains op && ["handle", "stmt", "cmiss", "chit"].contains via) ||
-        (op == "batch" && ["handle", "cmiss", "chit"].contains via && !uc)
+        (op == "batch" && ["handle", "cmiss", "chit", "pbatch"].contains via && !uc) ||
+        (op == "tracing" && via == "-" && !uc && cfg.consistency.isSome && cfg.serialConsistency.isNone &&
+          cfg.timestamp.isNone && !cfg.tracing && sp.isNone)
       if ps.toInt ≤ 0 || pages < 1 || pages > 20 || !okShape then "bad-case"
       else
         let sd : ExecProfile := ⟨sc, ss⟩
@@ -557,14 +560,31 @@ def runGlue (f : List String) (impl : String) : String :=
           (fun kv => toHex kv.1 ++ "=" ++ toHex kv.2))
         let kind := (op.splitOn "_").getLast?.getD ""
         let iter := kind == "iter"
+        let manual := kind == "pages"
         let m : Paging := if kind == "unpaged" then .unpaged else .paged
-        let states : List Bytes := if iter then (List.range (pages - 1)).map (fun j => [UInt8.ofNat (j + 1)]) else []
+        -- the server's scripted paging states: iterators `[j]`; manual paging: empty-but-present, long, two bytes
+        let manualState (j : Nat) : Bytes :=
+          if j == 1 then [] else if j % 2 == 0 then UInt8.ofNat j :: List.replicate 300 0xAB else [UInt8.ofNat j, 0]
+        let states : List Bytes :=
+          if iter then (List.range (pages - 1)).map (fun j => [UInt8.ofNat (j + 1)])
+          else if manual then (List.range (pages - 1)).map (fun j => manualState (j + 1))
+          else []
         -- the SELECT's PREPARED answer: 2 result columns, no metadata id (extension off on the mock cluster)
         let info : PreparedInfo := { id := [], resultColCount := 2, resultMetadataId := none, useCachedResultMetadata := uc }
         let vals : List RawVal := [.val [1, 2]]
         -- (tracing bit of the PREPARE frames, frames)
         let res : Option (String × List String) :=
-          if op.startsWith "query_" then
+          if op == "tracing" then
+            -- `get_tracing_info`: two driver-built statements (sessions, events) with the session's fetch consistency
+            -- (`cfg.consistency`), unpaged, one uuid value, prepared on the fly (no result metadata)
+            let tinfo : PreparedInfo := { id := [], resultColCount := 0, resultMetadataId := none, useCachedResultMetadata := false }
+            let one := sessionPreparedFromStatement [] tinfo false [.val (List.replicate 16 7)] cfg none sd conn .unpaged ps []
+            some ("0", ((one.drop 1) ++ (one.drop 1)).map (fun x => glueReqFrame x.1 x.2))
+          else if op == "query_pages" then
+            some ("-", (sessionManualQueryPages selectAllText cfg sp sd conn ps states).map (fun r => glueReqFrame r cfg.tracing))
+          else if op == "execute_pages" && via == "handle" then
+            some ("0", (sessionManualExecutePages info vals cfg sp sd conn ps states).map (fun r => glueReqFrame r cfg.tracing))
+          else if op.startsWith "query_" then
             some ("-", (none :: states.map some).map (fun st =>
               glueReqFrame (sessionQuery selectAllText cfg sp sd conn m ps st) cfg.tracing))
           else if op.startsWith "queryv_" then
@@ -585,8 +605,12 @@ def runGlue (f : List String) (impl : String) : String :=
           else
             -- BATCH: prepared INSERT with (pk, v) + a second statement without values; CachingSession prepares both
             let stmts : List GlueStmt :=
-              if via == "handle" then [.prepared id1 2, .unprepared text2] else [.prepared id1 2, .prepared id2 0]
-            let rows : List (List RawVal) := [[.val [1, 2], .val [0, 0, 0, 5]], []]
+              if via == "handle" then [.prepared id1 2, .unprepared text2]
+              else if via == "pbatch" then [.prepared idA 1, .prepared id1 2, .prepared idB 1, .prepared id2 0]
+              else [.prepared id1 2, .prepared id2 0]
+            let rows : List (List RawVal) :=
+              if via == "pbatch" then [[.val [1, 2]], [.val [1, 2], .val [0, 0, 0, 5]], [.val [1, 2]], []]
+              else [[.val [1, 2], .val [0, 0, 0, 5]], []]
             match sessionBatchBody (fun _ => ([], 0)) .unlogged stmts rows cfg sp sd conn with
             | .ok body => some ((if via == "chit" then "-" else "0"), [glueBatchFrame body cfg.tracing])
             | .error _ => some ((if via == "chit" then "-" else "0"), [])
